@@ -27,6 +27,7 @@ shares code with the archiver except download_batch, which the property names
 as the retrieval path for trace events.
 """
 
+import copy
 import hashlib
 import os
 import sqlite3
@@ -99,6 +100,50 @@ def _fault(kind, text):
     if kind == 'expired':
         return kazoo.exceptions.SessionExpiredError(text)
     raise ValueError(kind)
+
+# Module-level containers of the modules under test = in-memory state of the
+# archiver process. Captured once at import (pristine process), restored at
+# the start of every case and whenever the process is restarted.
+_MODULES = (app_zk, _zk, server_zk)
+
+
+def module_state():
+    state = {}
+    for mod in _MODULES:
+        for name, val in sorted(vars(mod).items()):
+            if name.startswith('__') or type(val) not in (dict, list, set):
+                continue
+            try:
+                state[(mod.__name__, name)] = copy.deepcopy(val)
+            except Exception:  # pylint: disable=broad-except
+                continue
+    return state
+
+
+def restore_module_state(state):
+    mods = {mod.__name__: mod for mod in _MODULES}
+    # containers that appeared after the capture go back to empty
+    for (modname, name), val in module_state().items():
+        if (modname, name) not in state:
+            state = dict(state)
+            state[(modname, name)] = type(val)()
+    for (modname, name), val in state.items():
+        mod = mods[modname]
+        cur = getattr(mod, name, None)
+        val = copy.deepcopy(val)
+        if type(cur) is not type(val):
+            setattr(mod, name, val)
+        elif isinstance(cur, dict):
+            cur.clear()
+            cur.update(val)
+        elif isinstance(cur, list):
+            cur[:] = val
+        else:
+            cur.clear()
+            cur.update(val)
+
+
+PRISTINE = module_state()
 
 APP_KINDS = ('scheduled', 'pending', 'configured', 'service_running',
              'service_exited', 'finished', 'killed', 'aborted', 'deleted',
@@ -224,7 +269,9 @@ class World(object):
         self.cache = {}
         self.events = {'trace': [], 'server': []}
         self.finished = []
+        self._archived_finished = []
         self.scheduled = set()
+        self.base_world = None
         self.base = None
         self.base_hist = None
 
@@ -344,27 +391,85 @@ class World(object):
             fam: set(self.tree.nodes[FAMILIES[fam]['hist']].children)
             for fam in FAMILY_ORDER
         }
+        self.base_world = (
+            {fam: list(evts) for fam, evts in self.events.items()},
+            list(self.finished), set(self.scheduled))
         self.tree.before_write = self._hook
 
     def _collect(self):
-        """E: what is live before the archiver runs (read from the tree)."""
+        """E: what is live right now (read from the tree), merged into the
+        obligations carried over from earlier passes.
+
+        Trace / server-trace events are immutable: every live node not known
+        yet is added. A /finished record is identified by (name, content): the
+        versions already archived stay as obligations, the versions that were
+        live are replaced by what the nodes hold now (the producers may have
+        rewritten them)."""
         nodes = self.tree.nodes
         self.scheduled = set(nodes[z.SCHEDULED].children)
         for fam, root in (('trace', z.TRACE), ('server', z.SERVER_TRACE)):
+            known = set(evt['path'] for evt in self.events[fam])
             for shard in sorted(nodes[root].children):
                 spath = root + '/' + shard
                 for name in sorted(nodes[spath].children):
+                    if spath + '/' + name in known:
+                        continue
                     obj, stamp, _rest = name.split(',', 2)
                     self.events[fam].append({
                         'path': spath + '/' + name, 'name': name,
                         'object': obj, 'ts': float(stamp), 'shard': shard,
                     })
+        self.finished = list(self._archived_finished)
         for name in sorted(nodes[z.FINISHED].children):
             node = nodes[z.FINISHED + '/' + name]
             self.finished.append({
                 'path': z.FINISHED + '/' + name, 'name': name,
                 'data': node.data.decode(), 'mtime': node.mtime / 1000.0,
             })
+
+    def _fin_live(self, rec):
+        node = self.tree.nodes.get(rec['path'])
+        return node is not None and node.data.decode() == rec['data']
+
+    # -- the world between two passes of the archiver -----------------------------
+    def apply_steps(self, group):
+        """Clock advance, then producers acting through the real publish()."""
+        self._archived_finished = [rec for rec in self.finished
+                                   if not self._fin_live(rec)]
+        self.clock.advance(group.get('advance', 60))
+        adm = self.admin
+        specs = self.case['instances']
+        saved_app_host = app_zk._HOSTNAME
+        saved_srv_host = server_zk._HOSTNAME
+        hook, self.tree.before_write = self.tree.before_write, None
+        try:
+            for oper in group.get('ops', []):
+                now_us = self.clock.us
+                if oper['op'] == 'event' and specs:
+                    inst = instance_name(specs[oper['i'] % len(specs)])
+                    kind = APP_KINDS[oper['k'] % len(APP_KINDS)]
+                    obj = app_event(kind, oper['v'], inst)
+                    (_ts, _src, what, etype, edata, payload) = obj.to_data()
+                    app_zk._HOSTNAME = HOSTS[oper['v'] % len(HOSTS)]
+                    app_zk.publish(adm, when_str(now_us - oper.get('back', 0)),
+                                   what, etype, edata, payload)
+                elif oper['op'] == 'unschedule' and specs:
+                    inst = instance_name(specs[oper['i'] % len(specs)])
+                    zkutils.ensure_deleted(adm, z.path.scheduled(inst))
+                elif oper['op'] == 'server_event':
+                    srv = 'node%d.example.com' % (1 + oper['i'] % 3)
+                    kind = SERVER_KINDS[oper['k'] % len(SERVER_KINDS)]
+                    obj = server_event(kind, oper['v'], srv)
+                    (_ts, _src, what, etype, edata, payload) = obj.to_data()
+                    server_zk._HOSTNAME = HOSTS[oper['v'] % len(HOSTS)]
+                    server_zk.publish(adm, when_str(now_us), what, etype,
+                                      edata, payload)
+                self.clock.advance(0.001)
+        finally:
+            app_zk._HOSTNAME = saved_app_host
+            server_zk._HOSTNAME = saved_srv_host
+            self.tree.before_write = hook
+        self._collect()
 
     def _old_rows(self, fam, count, salt):
         """Rows of events archived long ago (no longer live)."""
@@ -442,14 +547,43 @@ class World(object):
                                sequence=True)
 
     # -- running the archiver -------------------------------------------------
-    def reset(self):
-        """Back to the populated state (start of a fresh lineage)."""
+    def begin(self):
+        """Populated state, fresh archiver process (start of a history)."""
         self.tree.restore(self.base)
         self.tree.audit = []
         self.clock.us = self.start_us
         self.seen = {fam: set(self.base_hist[fam]) for fam in FAMILY_ORDER}
         self.pruned = {fam: {} for fam in FAMILY_ORDER}
         self.prune_errors = []
+        self.events = {fam: list(evts)
+                       for fam, evts in self.base_world[0].items()}
+        self.finished = list(self.base_world[1])
+        self._archived_finished = []
+        self.scheduled = set(self.base_world[2])
+        restore_module_state(PRISTINE)
+
+    def restart_process(self):
+        """The sproc died and its supervisor started a new one."""
+        restore_module_state(PRISTINE)
+
+    def mark(self):
+        """Everything a pass can change: tree, clock, what this lineage
+        uploaded/pruned, in-memory state of the archiver process."""
+        return {
+            'tree': self.tree.snapshot(), 'us': self.clock.us,
+            'seen': {fam: set(val) for fam, val in self.seen.items()},
+            'pruned': {fam: dict(val) for fam, val in self.pruned.items()},
+            'errors': list(self.prune_errors), 'mods': module_state(),
+        }
+
+    def restore(self, mark):
+        self.tree.restore(mark['tree'])
+        self.tree.audit = []
+        self.clock.us = mark['us']
+        self.seen = {fam: set(val) for fam, val in mark['seen'].items()}
+        self.pruned = {fam: dict(val) for fam, val in mark['pruned'].items()}
+        self.prune_errors = list(mark['errors'])
+        restore_module_state(mark['mods'])
 
     def run(self, fault_at=None, kind='stop'):
         """One iteration of sproc.trace's cleanup loop, optionally with the
@@ -504,7 +638,8 @@ class World(object):
 
     def fingerprint(self):
         """Everything check() and a further run depend on, except the clock:
-        node table (data, mtime) and what this lineage uploaded / pruned."""
+        node table (data, mtime), what this lineage uploaded / pruned, and the
+        in-memory state of the archiver process."""
         nodes = self.tree.nodes
         return (
             tuple(sorted((path, node.data, node.mtime)
@@ -515,6 +650,7 @@ class World(object):
             tuple(sorted((fam, name) for fam in FAMILY_ORDER
                          for name in self.seen[fam])),
             len(self.prune_errors),
+            repr(sorted(module_state().items())),
         )
 
     # -- oracle -------------------------------------------------------------
@@ -603,7 +739,7 @@ class World(object):
                 summary['archived' if how == 'snapshot'
                         else 'pruned_away'] += 1
         for rec in self.finished:
-            if rec['path'] in nodes:
+            if self._fin_live(rec):
                 continue
             how = self._retrievable_finished(rec)
             if how is None:
@@ -640,7 +776,7 @@ class World(object):
                                           par['trace_expire']))
         fin_edge = now - par['finished_expire']
         for rec in self.finished:
-            if rec['path'] not in nodes and rec['mtime'] >= fin_edge:
+            if not self._fin_live(rec) and rec['mtime'] >= fin_edge:
                 raise Violation(
                     'c18.finished.young-record-archived',
                     '%s run: %s (modified %.3fs ago) removed although '
